@@ -993,6 +993,21 @@ def switch_v(tr_sw):
 
 
 # ------------------------------------------------------------------ classification of circuit failures
+def rep_cpx(sd):
+    """does a certified s-domain value have a REPEATED complex-conjugate pole pair (the F10 condition)?"""
+    if not isinstance(sd, list):
+        return False
+    for ce in sd:
+        hi = {}
+        for r, p, o in ce['ts']:
+            k = (Fraction(p[0]), Fraction(p[1]))
+            hi[k] = max(hi.get(k, 0), o)
+        for (a, b), o in hi.items():
+            if b != 0 and o >= 2 and hi.get((a, -b), 0) >= 2:
+                return True
+    return False
+
+
 def classify_circuit(case, wr, codes, oracle_bad, meta):
     """structural fingerprint(s) of one failing circuit: list of (key, what, found_input)"""
     out = []
@@ -1004,6 +1019,8 @@ def classify_circuit(case, wr, codes, oracle_bad, meta):
     mism = [q_ for q_ in wr.get('q', []) if 'alt_equal' in q_]
     delayed_ivp = bool(mism) and all(q_['alt_equal'] for q_ in mism) and gen['has_ic'] and not case['causal_expected'] \
         and any(t_ in ('dstep', 'dexp', 'pulse') for t_ in gen['src_tags'])
+    # ... or by F10: every such time function belongs to an s-domain value with a repeated complex-conjugate pole pair
+    f10 = bool(mism) and all(rep_cpx(q_.get('sdom')) for q_ in mism)
 
     def law_name(li):
         l = laws[li]
@@ -1017,7 +1034,7 @@ def classify_circuit(case, wr, codes, oracle_bad, meta):
             out.append((KEY_KIC, b['what'], True))
         elif delayed_ivp:
             out.append((KEY_DELAY_IVP, b['what'], True))
-        elif 'repeated_complex' in tags:
+        elif f10:
             out.append((KEY_F10, b['what'], True))
         elif li >= 0:
             out.append(('law:%s:%s:%s' % (laws[li]['k'], re.sub(r'[^A-Za-z]+', '_', re.sub(r'\d+', '', law_name(li)))[:30], '+'.join(t for t in tags if t != 'corpus')), b['what'], True))
@@ -1033,7 +1050,7 @@ def classify_circuit(case, wr, codes, oracle_bad, meta):
                 out.append((KEY_KIC, 'the s-domain solution violates V = L(sI - i0) + M(sI_k - i0k) for %s (mutual initial-current term missing)' % l['name'], True))
             elif delayed_ivp:
                 out.append((KEY_DELAY_IVP, 'law %s fails on the model inverse' % law_name(li), have_real))
-            elif 'repeated_complex' in tags:
+            elif f10:
                 out.append((KEY_F10, 'law %s fails on the model inverse' % law_name(li), have_real))
             else:
                 out.append(('model-law:%s:%s' % (l['k'], '+'.join(t for t in tags if t != 'corpus')), 'law %s does not hold for the inverse transform of Lcapy\'s s-domain solution' % law_name(li), have_real))
@@ -1042,7 +1059,7 @@ def classify_circuit(case, wr, codes, oracle_bad, meta):
             what = {1: 'partial-fraction certificate of %s rejected by the verified checker',
                     2: 'time-domain %s differs from the inverse transform of Lcapy\'s own s-domain solution',
                     3: 'step / t >= 0 bookkeeping of %s differs from the flag model'}[k] % ('%s(%s)' % (qn['kind'], qn['name']))
-            if 'repeated_complex' in tags and k == 2:
+            if f10 and k == 2:
                 out.append((KEY_F10, what, have_real))
             elif delayed_ivp and k in (2, 3):
                 out.append((KEY_DELAY_IVP, what, have_real))
